@@ -24,7 +24,6 @@ DROPPED = {
  'c09_readline_cap_removed': 'equivalent for C09: the 16000-byte line cap is a resource guard; without it a long line is just a long line and every clause of the property still holds',
  'c10_readbody_size_not_decremented': 'equivalent: "currentsize >= size" with constant size is the same predicate as decrementing size',
  'c18_ini_modified_not_set_for_new_section': 'equivalent: set() has already marked the file modified',
- 'seeded/c11-sha1-static-workspace': 'not observable in flavour A: two handshakes must be inside SHA1::transform at the same moment, and flavour A (where the network scenarios of C11 run) switches threads only at wrapped calls, of which the hash has none; it would take the access-granular flavour T for a handshake scenario, which was not built',
  'seeded/c13-start-resets-finished': 'caught until fix e33520e (logs 02/13); since that fix a successful join() itself marks the object finished, so a flag cleared by start() no longer survives join(): the statement constrains finished() only from join() on, and the change is no longer a violation',
  'seeded/c13-start-resets-finished-2': 'as c13-start-resets-finished: caught until fix e33520e made join() set the flag (logs 03/13)',
  'seeded/c13-start-resets-finished-3': 'as c13-start-resets-finished: caught until fix e33520e made join() set the flag (log 07)',
